@@ -466,8 +466,23 @@ def scripted(kind, o, depth, inner_kinds, outcomes, commit_fail=()):
     return {'prog': prog, 'env': env, 'spec': spec}
 
 
+class Pending(object):
+    """violations found by the oracle; per key the smallest failing input is reported (flush())"""
+    def __init__(self, ctx):
+        self.ctx = ctx; self.best = {}
+    def violation(self, what, inp, observed=None, expected=None, key=None):
+        size = len(json.dumps(inp, sort_keys=True, default=repr))
+        if key not in self.best or size < self.best[key][0]:
+            self.best[key] = (size, what, inp, observed, expected)
+    def flush(self):
+        for key in sorted(self.best):
+            size, what, inp, observed, expected = self.best[key]
+            self.ctx.violation(what, inp, observed=observed, expected=expected, key=key)
+        self.best = {}
+
+
 def oracle(ctx, case, obs):
-    """the statement of C18 evaluated on what the real code did (scripted scenarios only)"""
+    """the statement of C18 evaluated on what the real code did (scripted scenarios only); ctx is a Pending collector"""
     spec = case['spec']; kind = spec['kind']
     bodies = spec['bodies']
     key0 = 'C18:%s' % kind
@@ -561,6 +576,7 @@ def compare(ctx, case, obs, mod):
 
 
 def run_cases(ctx, real, cases, kind):
+    pend = Pending(ctx)
     todo = []
     for case in cases:
         obs = real.execute(case)
@@ -575,7 +591,8 @@ def run_cases(ctx, real, cases, kind):
         if 'attempts' in obs: ctx.count('attempts:%d' % obs['attempts'])
         if obs['ncommit']: ctx.count('real-commits:%d' % obs['ncommit'])
         if mod is not None: compare(ctx, case, obs, mod)
-        if 'spec' in case: oracle(ctx, case, obs)
+        if 'spec' in case: oracle(pend, case, obs)
+    pend.flush()
 
 
 def grid(ctx, rng):
